@@ -66,6 +66,21 @@ class MediaList(cssutils.util._NewListBase):
             if item.type == 'MediaQuery':
                 yield item
 
+    def __seqindex(self, index):
+        """Index in ``seq`` (which holds comments too) of media query `index`."""
+        return [i for i, item in enumerate(self._seq) if item.type == 'MediaQuery'][
+            index
+        ]
+
+    def __len__(self):
+        return sum(1 for _ in self)
+
+    def __getitem__(self, index):
+        return self._seq[self.__seqindex(index)].value
+
+    def __delitem__(self, index):
+        del self._seq[self.__seqindex(index)]
+
     length = property(
         lambda self: len(list(self)),
         doc="The number of media in the list (DOM readonly).",
@@ -174,7 +189,7 @@ class MediaList(cssutils.util._NewListBase):
         # TODO: remove duplicates?
         newMedium = self.__prepareset(newMedium)
         if newMedium:
-            self._seq[index] = (newMedium, 'MediaQuery', None, None)
+            self._seq[self.__seqindex(index)] = (newMedium, 'MediaQuery', None, None)
 
     def appendMedium(self, newMedium):
         """Add the `newMedium` to the end of the list.
